@@ -1,0 +1,38 @@
+//go:build verif
+// +build verif
+
+package hc
+
+import (
+	"time"
+
+	hostpkg "github.com/samaritan-proxy/samaritan/host"
+	"github.com/samaritan-proxy/samaritan/pb/config/hc"
+)
+
+type verifChecker struct{ f func(addr string) error }
+
+func (c verifChecker) Check(addr string, timeout time.Duration) error { return c.f(addr) }
+
+// VerifNewMonitor builds a monitor with the given thresholds whose checker is the given function.
+func VerifNewMonitor(rise, fall uint32, set *hostpkg.Set, check func(addr string) error) (*Monitor, error) {
+	cfg := &hc.HealthCheck{
+		Interval:      time.Hour,
+		Timeout:       time.Second,
+		FallThreshold: fall,
+		RiseThreshold: rise,
+		Checker:       &hc.HealthCheck_TcpChecker{TcpChecker: &hc.TCPChecker{}},
+	}
+	m, err := NewMonitor(cfg, set, nil)
+	if err != nil || m == nil {
+		return m, err
+	}
+	m.checker = verifChecker{check}
+	return m, nil
+}
+
+// VerifCheckHost is checkHostAndUpdateStatus.
+func (m *Monitor) VerifCheckHost(h *hostpkg.Host) { m.checkHostAndUpdateStatus(h) }
+
+// VerifCheckHosts is one round of checkHosts.
+func (m *Monitor) VerifCheckHosts() { m.checkHosts() }
